@@ -134,6 +134,13 @@ def trimEnd (d : Bytes) : Bytes := (trimStartRev d.reverse).reverse
 /-- `str::trim` -/
 def trim (d : Bytes) : Bytes := trimEnd (trimStart d)
 
+/-- `char::is_ascii_whitespace`: SP, HT, LF, FF, CR (not VT) -/
+def isAsciiWs (b : UInt8) : Bool := b == 0x20 || b == 0x09 || b == 0x0A || b == 0x0C || b == 0x0D
+
+/-- `trim_ascii_ws` = `s.trim_matches(|c| c.is_ascii_whitespace())` (http1_parser.rs): header and
+cookie values lose ASCII white space only -/
+def trimAscii (d : Bytes) : Bytes := ((d.dropWhile isAsciiWs).reverse.dropWhile isAsciiWs).reverse
+
 def flushTok (cur : Bytes) (rest : List Bytes) : List Bytes :=
   if cur.isEmpty then rest else cur.reverse :: rest
 
@@ -338,7 +345,7 @@ def parseHeaderLine (line : Bytes) (pos : Nat) : Option Hdr :=
   | none => none
   | some (n, v) =>
     let name := trim n
-    if name.isEmpty then none else some { name := name, value := some (trim v), pos := pos }
+    if name.isEmpty then none else some { name := name, value := some (trimAscii v), pos := pos }
 
 def parseHeaderLines : List Bytes → Nat → List Hdr
   | [], _ => []
@@ -372,10 +379,10 @@ def parseHeaders (lines : List Bytes) : Except PErr (List Hdr × Meta) :=
 /-! ### cookies -/
 
 def parseCookiePiece (piece : Bytes) (pos : Nat) : Option Cookie :=
-  let p := trim piece
+  let p := trimAscii piece
   if p.isEmpty then none else
   match splitFirst 61 p with
-  | some (n, v) => some { name := trim n, value := some (trim v), pos := pos }
+  | some (n, v) => some { name := trimAscii n, value := some (trimAscii v), pos := pos }
   | none => some { name := p, value := none, pos := pos }
 
 def parseCookiePieces : List Bytes → Nat → List Cookie
@@ -499,6 +506,13 @@ def Q.lt (a b : Q) : Bool :=
   | true, false => !(x == 0 && y == 0)
   | false, true => false
 
+/-- what may follow the mantissa's `e`/`E` for Rust to accept the literal: `[+-]? digit+` -/
+def validExponent (r : Bytes) : Bool :=
+  let ds := match r with
+    | b :: t => if b = 43 || b = 45 then t else r
+    | [] => r
+  !ds.isEmpty && ds.all isDigit
+
 /-- `str::parse::<f32>()` restricted to `[+-]? digits* [. digits*]` with at least one digit.
 `none`: the literal is rejected by Rust. Literals Rust accepts but this grammar does not
 (exponents, `inf`, `nan`) yield `some none` = outside the model. -/
@@ -519,13 +533,14 @@ def parseQ (d : Bytes) : Option (Option Q) :=
       if ip.isEmpty && fp.isEmpty then none else
       match rest2 with
       | [] => some (some ⟨neg, digitsVal (ip ++ fp) 0, fp.length⟩)
-      | e :: _ => if e = 101 || e = 69 then some none else none
-    else if (b = 101 || b = 69) && !ip.isEmpty then some none
+      | e :: ex => if (e = 101 || e = 69) && validExponent ex then some none else none
+    else if (b = 101 || b = 69) && !ip.isEmpty && validExponent fr then some none
     else none
 
-/-- `trim_start_matches("q=")` -/
+/-- `q.strip_prefix("q=").or_else(|| q.strip_prefix("Q=")).unwrap_or(q)` -/
 def stripQPrefix : Bytes → Bytes
-  | 113 :: 61 :: r => stripQPrefix r
+  | 113 :: 61 :: r => r
+  | 81 :: 61 :: r => r
   | d => d
 
 def langName (code : Bytes) : Option Bytes :=
@@ -538,10 +553,10 @@ def langPart (part : Bytes) : Option (Option (Q × Bytes)) :=
   let pieces := splitByte 59 part
   let full := trim (pieces.headD [])
   if full.isEmpty then some none else
-  let code := (splitByte 45 full).headD []
+  let code := lower ((splitByte 45 full).headD [])       -- `to_ascii_lowercase`
   let q : Option Q := match pieces.drop 1 with
     | [] => some Q.one
-    | qs :: _ => match parseQ (stripQPrefix qs) with
+    | qs :: _ => match parseQ (stripQPrefix (trim qs)) with
       | none => some Q.one
       | some none => none
       | some (some q) => some q
@@ -607,9 +622,10 @@ def skipValueList (isReq : Bool) : List String :=
 def commonList (isReq : Bool) : List String :=
   if isReq then HttpLists.requestCommon else HttpLists.responseCommon
 
-def inList (l : List String) (n : Bytes) : Bool := l.any (fun s => ascii s == n)
+/-- `list.iter().any(|h| h.eq_ignore_ascii_case(name))` -/
+def inList (l : List String) (n : Bytes) : Bool := l.any (fun s => lower (ascii s) == lower n)
 
-/-- `convert_headers_to_http_format`: exact (case-sensitive) list membership -/
+/-- `convert_headers_to_http_format`: case-insensitive list membership, name reported as it is -/
 def convertHeader (isReq : Bool) (h : Hdr) : SigHdr :=
   if inList (optionalList isReq) h.name then { optional := true, name := h.name, value := none }
   else if inList (skipValueList isReq) h.name then { optional := false, name := h.name, value := none }
@@ -696,6 +712,14 @@ def h1CanResponse (data : Bytes) : Bool :=
   if data.length < HttpLists.gateResponseMinLen then false
   else if decide (data.length ≥ 9) && looksLikeHttp2Response data then false
   else match splitn3 SP (firstLine data) with
+    | v :: c :: _ => isHttp1VersionTok v && c.length == HttpLists.gateStatusDigits && c.all isDigit
+    | _ => false
+
+/-- `looks_like_http1_response` (public helper; `split_whitespace` instead of `splitn`) -/
+def looksLikeHttp1Response (data : Bytes) : Bool :=
+  if data.length < HttpLists.gateResponseMinLen then false
+  else if decide (data.length ≥ 9) && looksLikeHttp2Response data then false
+  else match splitWs (firstLine data) with
     | v :: c :: _ => isHttp1VersionTok v && c.length == HttpLists.gateStatusDigits && c.all isDigit
     | _ => false
 
